@@ -11,7 +11,7 @@ import (
 func init() {
 	register(&Prop{
 		ID:         "C09",
-		Decided:    "(1) in the counting window's consumer goroutine a delivery (callback/sendResult) is reachable only under buffered-count >= threshold, and the count compared is len(buffer-after-append) of that key; (2) the delivered batch is a fresh slice of length threshold copied from buf[:threshold], and the carried remainder is a fresh copy of buf[threshold:] with the same bound (no aliasing of the emitted batch with the live buffer); (3) the key encoder getKey is injective and NULL-distinct (keyenc); (4) only the Start goroutine receives from triggerChan and only it delivers (Trigger/Stop never flush a partial batch); (5) the idle-key reaper runs only under countStateTTL>0; (6) keyedBuffer/keyedCount/lastActive/stopped are accessed only under cw.mu. Also: a make() whose size is a number converted from query text (utils/cast, strconv) is executed only after a comparison showed that as many items exist, or after a check against a constant bound (fnsafe/alloc-bounded-by-data): CountingWindow(N) allocates nothing proportional to N before N rows arrived. Also: every path of processWindowBatch from GetResults to a return passes aggregator.Reset() (aggstate/reset, shared with C03): a batch that fails to be delivered cannot leave its rows in the accumulators of the next batch. Also: in the window's methods that send on its output channel, every receive from that channel (drop-oldest eviction) is followed on every path by an increment of droppedCount (flow/evicted-result-counted).",
+		Decided:    "(1) in the counting window's consumer goroutine a delivery (callback/sendResult) is reachable only under buffered-count >= threshold, and the count compared is len(buffer-after-append) of that key; (2) the delivered batch is a fresh slice of length threshold copied from buf[:threshold], and the carried remainder is a fresh copy of buf[threshold:] with the same bound (no aliasing of the emitted batch with the live buffer); (3) the key encoder getKey is injective and NULL-distinct (keyenc); (4) only the Start goroutine receives from triggerChan and only it delivers (Trigger/Stop never flush a partial batch); (5) the idle-key reaper runs only under countStateTTL>0; (6) keyedBuffer/keyedCount/lastActive/stopped are accessed only under cw.mu. Also: a make() whose size is a number converted from query text (utils/cast, strconv) is executed only after a comparison showed that as many items exist, or after a check against a constant bound (fnsafe/alloc-bounded-by-data): CountingWindow(N) allocates nothing proportional to N before N rows arrived. Also: every path of processWindowBatch from GetResults to a return passes aggregator.Reset() (aggstate/reset, shared with C03): a batch that fails to be delivered cannot leave its rows in the accumulators of the next batch. Also: in the window's methods that send on its output channel, every receive from that channel (drop-oldest eviction) is followed on every path by an increment of droppedCount (flow/evicted-result-counted). Also: the loop that feeds the group's aggregates in GroupAggregator.Add has no early exit other than an error return (flow/all-aggregates-fed, shared with C03).",
 		NotDecided: "contents of the i-th batch under all interleavings of keys as a count (follows from the above only informally), aggregate values.",
 		Run:        runC09,
 	})
